@@ -71,6 +71,7 @@ def direct_case(draw):
         "pred": gen.apply_relabel(pred, pm, "int64").tolist(),
         "ref": gen.apply_relabel(ref, rm, "int64").tolist(),
         "dtype": dtype,
+        "layout": draw(st.sampled_from(["C", "C", "F", "neg", "T"])),
         "matcher": {"kind": "merge" if kind == "merge" else "naive", "metric": metric, "thr": draw(gen.threshold(metric)), "m2o": kind == "naive_m2o"},
     }
 
@@ -146,8 +147,8 @@ def check(case, stats):
         return check_many(case, stats)
     from panoptica.utils.processing_pair import UnmatchedInstancePair
 
-    pred = np.array(case["pred"]).astype(case["dtype"])
-    ref = np.array(case["ref"]).astype(case["dtype"])
+    pred = gen.with_layout(np.array(case["pred"]).astype(case["dtype"]), case.get("layout", "C"))
+    ref = gen.with_layout(np.array(case["ref"]).astype(case["dtype"]), case.get("layout", "C"))
     if not pred.any() or not ref.any():
         stats.count("skipped:empty_side")
         return
@@ -157,7 +158,7 @@ def check(case, stats):
     thr = gen.resolve_threshold(mcfg["thr"], [s for s, _, _ in cands]) if isinstance(mcfg["thr"], dict) else mcfg["thr"]
     mcfg["thr"] = thr
     mt = lib.matcher(mcfg)
-    out = H.lib_call(lambda: mt.match_instances(UnmatchedInstancePair(pred.copy(), ref.copy())))
+    out = H.lib_call(lambda: mt.match_instances(UnmatchedInstancePair(pred.copy(order="K"), ref.copy(order="K"))))
     classes = [f"dtype={case['dtype']}", f"matcher={mcfg['kind']}{'+m2o' if mcfg.get('m2o') else ''}", "direct"]
     try:
         n_un, _, _ = oracle(pred, ref, np.asarray(out.prediction_arr), np.asarray(out.reference_arr), mcfg, thr, stats, case, classes)
